@@ -312,6 +312,8 @@ def presName : Pool.Res → String
   | .conn c => s!"res=conn c={c}" | .got c => s!"res=got c={c}" | .wait => "res=wait"
   | .timedOut => "res=timeout" | .handoff w => s!"res=handoff c={w}" | .toIdle => "res=idle-return"
   | .unknown => "res=unknown" | .bad => "res=!bad-segment"
+  | .rolledBack => "res=rollback" | .dequeued => "res=dequeued" | .nothing => "res=none"
+  | .closed => "res=closed" | .kept => "res=kept" | .stale => "res=stale" | .done => "res=done"
 
 def presOf (name : String) (c : Nat) : Option Pool.Res :=
   match name with
@@ -319,6 +321,8 @@ def presOf (name : String) (c : Nat) : Option Pool.Res :=
   | "conn" => some (.conn c) | "got" => some (.got c) | "wait" => some .wait
   | "timeout" => some .timedOut | "handoff" => some (.handoff c) | "idle-return" => some .toIdle
   | "unknown" => some .unknown
+  | "rollback" => some .rolledBack | "dequeued" => some .dequeued | "none" => some .nothing
+  | "closed" => some .closed | "kept" => some .kept | "stale" => some .stale | "done" => some .done
   | _ => none
 
 def parsePoolOp (ts : List String) : Option (Nat × Pool.Op) :=
@@ -328,22 +332,31 @@ def parsePoolOp (ts : List String) : Option (Nat × Pool.Op) :=
   | "poll" :: t :: id :: _ => some (natD t, .poll (natD id))
   | "timeout" :: t :: id :: _ => some (natD t, .timeout (natD id))
   | "rel" :: t :: c :: _ => some (natD t, .rel (natD c))
+  | "abandon" :: t :: id :: _ => some (natD t, .abandon (natD id))
+  | "idle" :: t :: c :: e :: _ => some (natD t, .idleCheck (natD c) (natD e))
+  | "warm" :: t :: _ => some (natD t, .warm)
+  | "wmade" :: t :: _ => some (natD t, .wmade)
   | _ => none
 
-def runPool (max : Nat) (reserve : Bool) (body : List String) : List String :=
+/-- number of leading tokens of a transcript line that name the call -/
+def poolCallToks : Pool.Op → Nat
+  | .idleCheck _ _ => 4
+  | _ => 3
+
+def runPool (max : Nat) (reserve : Bool) (min : Nat) (body : List String) : List String :=
   let rec go (s : Pool.St) : List String → List String
     | [] => []
     | l :: ls =>
       match parsePoolOp (toks l) with
-      | some (_, o) =>
-        let r := Pool.step s o
-        s!"{joinSp ((toks l).take 3)} {presName r.2} a={r.1.active.length} i={r.1.idle.length} n={r.1.total} p={r.1.waiters.length}"
+      | some (t, o) =>
+        let r := Pool.stepAt s t o
+        s!"{joinSp ((toks l).take (poolCallToks o))} {presName r.2} a={r.1.active.length} i={r.1.idle.length} n={r.1.total} p={r.1.waiters.length}"
           :: go r.1 ls
       | none =>
         match toks l with
         | ["fin", t] => s!"fin {t} blocked={showIds s.waiters} a={s.active.length} i={s.idle.length} n={s.total} p={s.waiters.length}" :: go s ls
         | _ => s!"bad-line {l}" :: go s ls
-  go { max := max, reserve := reserve } body
+  go { max := max, reserve := reserve, min := min } body
 
 def parsePoolObs (ts : List String) : Option Pool.Obs :=
   let num := fun (k : String) => ((findKv k ts).map natD).getD 0
@@ -351,11 +364,11 @@ def parsePoolObs (ts : List String) : Option Pool.Obs :=
   | some (t, o), some r => (presOf r (num "c")).map fun r => ⟨t, o, r, num "a", num "i", num "n", num "p"⟩
   | _, _ => none
 
-def judgePool (max timeoutNs : Nat) (body : List String) : List String :=
+def judgePool (pr : Pool.Params) (body : List String) : List String :=
   let lines := body.filter (fun l => !(l.startsWith "fin"))
   let parsed := lines.map (fun l => parsePoolObs (toks l))
   if parsed.any Option.isNone then ["viol pool/malformed-judge-input"]
-  else match Pool.judge max timeoutNs {} (parsed.filterMap id) with
+  else match Pool.judge pr {} (parsed.filterMap id) with
     | none => ["ok"]
     | some sig => [s!"viol {sig}"]
 
@@ -412,8 +425,10 @@ def handle (hdr : List String) (body : List String) : List String :=
   match hdr with
   | ["res", cap] => runRes (intD cap) body
   | ["judge-res", cap, mode] => judgeRes (intD cap) (mode == "engine") body
-  | ["pool", max, reserve] => runPool (natD max) (reserve == "1") body
-  | ["judge-pool", max, tmo] => judgePool (natD max) (natD tmo) body
+  | ["pool", max, reserve] => runPool (natD max) (reserve == "1") 0 body
+  | ["pool", max, reserve, min] => runPool (natD max) (reserve == "1") (natD min) body
+  | ["judge-pool", max, tmo] => judgePool { max := natD max, timeoutNs := natD tmo } body
+  | ["judge-pool", max, tmo, min, idle] => judgePool { max := natD max, timeoutNs := natD tmo, min := natD min, idleNs := natD idle } body
   | ["conc", k, l, mn, mx] => runConc (concInit k l mn mx) body
   | ["judge-conc", k, l, mn, mx] => judgeConc (concInit k l mn mx) body
   | ["cond"] => runCond body
